@@ -7,135 +7,171 @@ From V Require Import Common.Base T2.T2Bio T2.T2TagTree T2.T2ProofsBio T2.T2Proo
 Lemma repeat_cons : forall {A} (x : A) n, x :: repeat x n = repeat x (S n).
 Proof. reflexivity. Qed.
 
-Lemma enc_loop_spec : forall m fuel L thr v k, Z.to_nat (thr - L) = m -> (m < fuel)%nat -> L <= v ->
-  tt_enc_loop fuel L thr v k =
+Lemma enc_loop_spec : forall m fuel L thr v u k, Z.to_nat (thr - L) = m -> (m < fuel)%nat ->
+  (u = false -> L <= v) ->
+  tt_enc_loop fuel L thr v u k =
     if L <? thr then
-      if v <? thr then (repeat 0 (Z.to_nat (v - L)) ++ (if k then [] else [1]), v, true)
+      if u then (repeat 0 (Z.to_nat (thr - L)), thr, k)
+      else if v <? thr then (repeat 0 (Z.to_nat (v - L)) ++ (if k then [] else [1]), v, true)
       else (repeat 0 (Z.to_nat (thr - L)), thr, k)
     else ([], L, k).
 Proof.
-  induction m as [|m IH]; intros fuel L thr v k Hm Hf Hv; (destruct fuel as [|f]; [lia|]); cbn [tt_enc_loop].
+  induction m as [|m IH]; intros fuel L thr v u k Hm Hf Hv; (destruct fuel as [|f]; [lia|]); cbn [tt_enc_loop].
   - destruct (Z.ltb_spec L thr); [lia | reflexivity].
   - destruct (Z.ltb_spec L thr) as [Hlt|]; [|reflexivity].
-    destruct (Z.geb_spec L v) as [Hge|Hlt2].
-    + assert (L = v) by lia. subst v. destruct (Z.ltb_spec L thr); [|lia].
-      rewrite Z.sub_diag. reflexivity.
-    + rewrite (IH f (L + 1) thr v k) by lia.
+    destruct u; cbn [negb andb].
+    + rewrite (IH f (L + 1) thr v true k) by (try lia; discriminate).
       destruct (Z.ltb_spec (L + 1) thr) as [H1|H1].
-      * destruct (Z.ltb_spec v thr).
-        -- replace (Z.to_nat (v - L)) with (S (Z.to_nat (v - (L + 1)))) by lia. reflexivity.
-        -- replace (Z.to_nat (thr - L)) with (S (Z.to_nat (thr - (L + 1)))) by lia. reflexivity.
-      * assert (thr = L + 1) by lia. subst thr. destruct (Z.ltb_spec v (L + 1)); [lia|].
+      * replace (Z.to_nat (thr - L)) with (S (Z.to_nat (thr - (L + 1)))) by lia. reflexivity.
+      * assert (thr = L + 1) by lia. subst thr.
         replace (Z.to_nat (L + 1 - L)) with 1%nat by lia. reflexivity.
+    + specialize (Hv eq_refl).
+      destruct (Z.geb_spec L v) as [Hge|Hlt2].
+      * assert (L = v) by lia. subst v. destruct (Z.ltb_spec L thr); [|lia].
+        rewrite Z.sub_diag. reflexivity.
+      * rewrite (IH f (L + 1) thr v false k) by (try lia; intros _; lia).
+        destruct (Z.ltb_spec (L + 1) thr) as [H1|H1].
+        -- destruct (Z.ltb_spec v thr).
+           ++ replace (Z.to_nat (v - L)) with (S (Z.to_nat (v - (L + 1)))) by lia. reflexivity.
+           ++ replace (Z.to_nat (thr - L)) with (S (Z.to_nat (thr - (L + 1)))) by lia. reflexivity.
+        -- assert (thr = L + 1) by lia. subst thr. destruct (Z.ltb_spec v (L + 1)); [lia|].
+           replace (Z.to_nat (L + 1 - L)) with 1%nat by lia. reflexivity.
 Qed.
 
 (* ---------- the decoder's inner loop on a run of zero bits ---------- *)
 
-Lemma dec_zeros : forall n rest r L thr vd more extra,
-  BitsAt rest r (repeat 0 n ++ more) -> L + Z.of_nat n <= thr -> L + Z.of_nat n <= vd ->
+Lemma dec_zeros : forall n rest r L thr vd ud more extra,
+  BitsAt rest r (repeat 0 n ++ more) -> L + Z.of_nat n <= thr -> (ud = true \/ L + Z.of_nat n <= vd) ->
   exists r', BitsAt rest r' more /\
-    tt_dec_loop (n + extra) r L thr vd = tt_dec_loop extra r' (L + Z.of_nat n) thr vd.
+    tt_dec_loop (n + extra) r L thr vd ud = tt_dec_loop extra r' (L + Z.of_nat n) thr vd ud.
 Proof.
-  induction n as [|n IH]; intros rest r L thr vd more extra HB Ht Hv.
+  induction n as [|n IH]; intros rest r L thr vd ud more extra HB Ht Hv.
   - exists r. split; [exact HB|]. cbn [Nat.add]. rewrite Z.add_0_r. reflexivity.
   - cbn [repeat app] in HB. destruct (bitsat_step _ _ _ _ HB) as [r1 [E HB1]].
-    destruct (IH rest r1 (L + 1) thr vd more extra HB1 ltac:(lia) ltac:(lia)) as [r' [HB' E']].
+    destruct (IH rest r1 (L + 1) thr vd ud more extra HB1 ltac:(lia) ltac:(destruct Hv; [left; assumption | right; lia]))
+      as [r' [HB' E']].
     exists r'. split; [exact HB'|]. cbn [Nat.add tt_dec_loop].
-    destruct (Z.ltb_spec L thr); [|lia]. destruct (Z.ltb_spec L vd); [|lia]. cbn [andb].
+    destruct (Z.ltb_spec L thr); [|lia].
+    assert (Hc : (ud || (L <? vd)) = true).
+    { destruct Hv as [->|Hv]; [reflexivity|]. destruct (Z.ltb_spec L vd); [apply Bool.orb_true_r | lia]. }
+    rewrite Hc. cbn [andb].
     rewrite E. cbn [obind fst snd]. change (0 =? 0) with true. cbn iota.
     rewrite E'. f_equal. lia.
 Qed.
 
 (* ---------- one node: encoder and decoder stay in step ---------- *)
 
-Lemma dec_loop_unfold : forall f r L thr v,
-  tt_dec_loop (S f) r L thr v =
-  if (L <? thr) && (L <? v) then
+Lemma dec_loop_unfold : forall f r L thr v u,
+  tt_dec_loop (S f) r L thr v u =
+  if (L <? thr) && (u || (L <? v)) then
     obind (rd_read_bit r) (fun br =>
-      if fst br =? 0 then tt_dec_loop f (snd br) (L + 1) thr v else tt_dec_loop f (snd br) L thr L)
-  else Ok (L, v, r).
+      if fst br =? 0 then tt_dec_loop f (snd br) (L + 1) thr v u else tt_dec_loop f (snd br) L thr L false)
+  else Ok (L, v, u, r).
 Proof. reflexivity. Qed.
 
-Lemma dec_loop_stop : forall f r L thr v, thr <= L \/ v <= L -> tt_dec_loop (S f) r L thr v = Ok (L, v, r).
+Lemma dec_loop_stop : forall f r L thr v u, thr <= L \/ (u = false /\ v <= L) ->
+  tt_dec_loop (S f) r L thr v u = Ok (L, v, u, r).
 Proof.
-  intros f r L thr v H. rewrite dec_loop_unfold.
-  destruct (Z.ltb_spec L thr); destruct (Z.ltb_spec L v); cbn [andb]; try reflexivity. lia.
+  intros f r L thr v u H. rewrite dec_loop_unfold.
+  destruct (Z.ltb_spec L thr); cbn [andb]; [|reflexivity].
+  destruct H as [H|[-> H]]; [lia|]. cbn [orb]. destruct (Z.ltb_spec L v); [lia | reflexivity].
 Qed.
 
-Lemma node_sync : forall L the thd v k bs L' k' rest r more,
-  L <= v <= 999 -> (k = true -> L = v) ->
-  (the = thd \/ (v < the /\ v < thd)) -> (v < the -> v < 999) ->
-  tt_enc_loop (loop_fuel L the) L the v k = (bs, L', k') ->
+(* encoder node (value v, unset u, known k) against decoder node (value vd, unset = not k) *)
+Lemma node_sync : forall L the thd v u k vd bs L' k' rest r more,
+  (u = false -> L <= v) -> (k = true -> u = false /\ L = v) ->
+  (the = thd \/ (u = false /\ v < the /\ v < thd)) -> (k = true -> vd = v) ->
+  tt_enc_loop (loop_fuel L the) L the v u k = (bs, L', k') ->
   BitsAt rest r (bs ++ more) ->
-  exists r', tt_dec_loop (loop_fuel L thd) r L thd (if k then v else 999)
-               = Ok (L', (if k' then v else 999), r') /\
-    BitsAt rest r' more /\
-    L <= L' <= v /\ (k' = true -> L' = v) /\ (v < the -> k' = true) /\ L' <= Z.max L the.
+  exists r' vd', tt_dec_loop (loop_fuel L thd) r L thd vd (negb k) = Ok (L', vd', negb k', r') /\
+    BitsAt rest r' more /\ (k' = true -> vd' = v) /\
+    L <= L' /\ (u = false -> L' <= v) /\ (k' = true -> u = false /\ L' = v) /\
+    (u = false -> v < the -> k' = true) /\ L' <= Z.max L the.
 Proof.
-  intros L the thd v k bs L' k' rest r more Hv Hk Hc Hq He HB.
-  rewrite (enc_loop_spec (Z.to_nat (the - L))) in He by (unfold loop_fuel; lia).
+  intros L the thd v u k vd bs L' k' rest r more Hv Hk Hc Hvd He HB.
+  rewrite (enc_loop_spec (Z.to_nat (the - L))) in He by (try (unfold loop_fuel; lia); exact Hv).
   destruct (Z.ltb_spec L the) as [Hlt|Hge].
   2:{ (* nothing to say at this node *)
     inversion He; subst bs L' k'. cbn [app] in HB.
-    exists r. split.
-    - unfold loop_fuel. apply dec_loop_stop. lia.
-    - split; [exact HB|]. repeat split; try lia; auto; intros; lia. }
-  destruct (Z.ltb_spec v the) as [Hvt|Hvt].
-  - inversion He; subst bs L' k'. clear He.
-    assert (Hvd : v < thd) by lia. specialize (Hq Hvt).
-    destruct k.
-    + (* already known: both silent *)
-      assert (L = v) by auto. subst v. rewrite Z.sub_diag in HB. cbn [Z.to_nat repeat app] in HB.
-      exists r. split.
-      * unfold loop_fuel. apply dec_loop_stop. lia.
-      * split; [exact HB|]. repeat split; try lia; auto.
-    + rewrite <- app_assoc in HB.
-      destruct (dec_zeros (Z.to_nat (v - L)) rest r L thd 999 ([1] ++ more)
-                  (2 + Z.to_nat (thd - v)) HB ltac:(lia) ltac:(lia)) as [r1 [HB1 E1]].
-      cbn [app] in HB1. destruct (bitsat_step _ _ _ _ HB1) as [r2 [E2 HB2]].
-      exists r2. split.
-      * unfold loop_fuel.
-        replace (S (S (Z.to_nat (thd - L)))) with (Z.to_nat (v - L) + (2 + Z.to_nat (thd - v)))%nat by lia.
-        rewrite E1. rewrite Z2Nat.id by lia. replace (L + (v - L)) with v by lia.
-        change (2 + Z.to_nat (thd - v))%nat with (S (S (Z.to_nat (thd - v)))).
-        rewrite dec_loop_unfold.
-        destruct (Z.ltb_spec v thd); [|lia]. destruct (Z.ltb_spec v 999); [|lia]. cbn [andb].
-        rewrite E2. cbn [obind fst snd]. change (1 =? 0) with false. cbn iota.
-        apply dec_loop_stop. lia.
-      * split; [exact HB2|]. repeat split; try lia; auto.
-  - (* the value is not below the threshold: zeros up to the threshold *)
+    exists r, vd. split.
+    - unfold loop_fuel. apply dec_loop_stop. left. destruct Hc as [<-|[Hu [H1 H2]]]; [lia|].
+      specialize (Hv Hu). lia.
+    - split; [exact HB|]. split; [exact Hvd|]. repeat split; try lia; auto; try (apply Hk; assumption).
+      intros Hu Hvt. specialize (Hv Hu). lia. }
+  destruct u.
+  - (* unset on the encoder side: zeros up to the threshold *)
     inversion He; subst bs L' k'. clear He.
-    assert (the = thd) by (destruct Hc as [|[? ?]]; [assumption | lia]). subst thd.
-    destruct k; [assert (L = v) by auto; lia|].
-    destruct (dec_zeros (Z.to_nat (the - L)) rest r L the 999 more 2 HB ltac:(lia) ltac:(lia))
+    assert (the = thd) by (destruct Hc as [|[? _]]; [assumption | discriminate]). subst thd.
+    destruct k; [destruct (Hk eq_refl); discriminate|]. cbn [negb].
+    destruct (dec_zeros (Z.to_nat (the - L)) rest r L the vd true more 2 HB ltac:(lia) ltac:(left; reflexivity))
       as [r1 [HB1 E1]].
-    exists r1. split.
+    exists r1, vd. split.
     + unfold loop_fuel.
       replace (S (S (Z.to_nat (the - L)))) with (Z.to_nat (the - L) + 2)%nat by lia.
       rewrite E1. rewrite Z2Nat.id by lia. replace (L + (the - L)) with the by lia.
-      apply dec_loop_stop. lia.
-    + split; [exact HB1|]. repeat split; try lia; intros; try discriminate; lia.
+      apply dec_loop_stop. left. lia.
+    + split; [exact HB1|]. repeat split; try lia; intros; discriminate.
+  - specialize (Hv eq_refl).
+    destruct (Z.ltb_spec v the) as [Hvt|Hvt].
+    + inversion He; subst bs L' k'. clear He.
+      assert (Hvd2 : v < thd) by (destruct Hc as [<-|[_ [_ H]]]; lia).
+      destruct k; cbn [negb].
+      * (* already known: both silent *)
+        destruct (Hk eq_refl) as [_ HLv]. subst v. rewrite Z.sub_diag in HB. cbn [Z.to_nat repeat app] in HB.
+        rewrite (Hvd eq_refl).
+        exists r, L. split.
+        -- unfold loop_fuel. apply dec_loop_stop. right. split; [reflexivity | lia].
+        -- split; [exact HB|]. repeat split; try lia; auto.
+      * rewrite <- app_assoc in HB.
+        destruct (dec_zeros (Z.to_nat (v - L)) rest r L thd vd true ([1] ++ more)
+                    (2 + Z.to_nat (thd - v)) HB ltac:(lia) ltac:(left; reflexivity)) as [r1 [HB1 E1]].
+        cbn [app] in HB1. destruct (bitsat_step _ _ _ _ HB1) as [r2 [E2 HB2]].
+        exists r2, v. split.
+        -- unfold loop_fuel.
+           replace (S (S (Z.to_nat (thd - L)))) with (Z.to_nat (v - L) + (2 + Z.to_nat (thd - v)))%nat by lia.
+           rewrite E1. rewrite Z2Nat.id by lia. replace (L + (v - L)) with v by lia.
+           change (2 + Z.to_nat (thd - v))%nat with (S (S (Z.to_nat (thd - v)))).
+           rewrite dec_loop_unfold.
+           destruct (Z.ltb_spec v thd); [|lia]. cbn [andb orb].
+           rewrite E2. cbn [obind fst snd]. change (1 =? 0) with false. cbn iota.
+           apply dec_loop_stop. right. split; [reflexivity | lia].
+        -- split; [exact HB2|]. repeat split; try lia; auto.
+    + (* the value is not below the threshold: zeros up to the threshold *)
+      inversion He; subst bs L' k'. clear He.
+      assert (the = thd) by (destruct Hc as [|[_ [? ?]]]; [assumption | lia]). subst thd.
+      destruct k; [destruct (Hk eq_refl); lia|]. cbn [negb].
+      destruct (dec_zeros (Z.to_nat (the - L)) rest r L the vd true more 2 HB ltac:(lia) ltac:(left; reflexivity))
+        as [r1 [HB1 E1]].
+      exists r1, vd. split.
+      * unfold loop_fuel.
+        replace (S (S (Z.to_nat (the - L)))) with (Z.to_nat (the - L) + 2)%nat by lia.
+        rewrite E1. rewrite Z2Nat.id by lia. replace (L + (the - L)) with the by lia.
+        apply dec_loop_stop. left. lia.
+      * split; [exact HB1|]. repeat split; try lia; intros; try discriminate; lia.
 Qed.
 
 (* ---------- node-level relations ---------- *)
 
 Definition NodeRel (te td : ttree) (id : Z * Z) : Prop :=
-  nl te id = nl td id /\ nv td id = (if nk te id then nv te id else 999).
+  nl te id = nl td id /\ nu td id = negb (nk te id) /\ (nk te id = true -> nv td id = nv te id).
 Definition NodeInv (te : ttree) (id : Z * Z) : Prop :=
-  nl te id <= nv te id <= 999 /\ (nk te id = true -> nl te id = nv te id).
+  (nu te id = false -> nl te id <= nv te id) /\ (nk te id = true -> nu te id = false /\ nl te id = nv te id).
 
-(* values do not decrease from the root to the leaf *)
+(* from the root to the leaf: a set node has a set parent with a value not above its own *)
 Fixpoint incr_chain (t : ttree) (ids : list (Z * Z)) : Prop :=
   match ids with
-  | a :: ((b :: _) as r) => nv t a <= nv t b /\ incr_chain t r
+  | a :: ((b :: _) as r) => (nu t b = false -> nu t a = false /\ nv t a <= nv t b) /\ incr_chain t r
   | _ => True
   end.
 
-Lemma incr_chain_ext : forall t t' ids, (forall i, nv t' i = nv t i) -> incr_chain t ids -> incr_chain t' ids.
+Lemma incr_chain_ext : forall t t' ids, (forall i, nv t' i = nv t i) -> (forall i, nu t' i = nu t i) ->
+  incr_chain t ids -> incr_chain t' ids.
 Proof.
-  intros t t' ids H. induction ids as [|a ids IH]; [auto|]. destruct ids as [|b l]; [auto|].
-  intros Hc. change (nv t a <= nv t b /\ incr_chain t (b :: l)) in Hc. destruct Hc as [H1 H2].
-  change (nv t' a <= nv t' b /\ incr_chain t' (b :: l)). split; [rewrite !H; exact H1 | apply IH; exact H2].
+  intros t t' ids H Hu. induction ids as [|a ids IH]; [auto|]. destruct ids as [|b l]; [auto|].
+  intros Hc. change ((nu t b = false -> nu t a = false /\ nv t a <= nv t b) /\ incr_chain t (b :: l)) in Hc.
+  destruct Hc as [H1 H2].
+  change ((nu t' b = false -> nu t' a = false /\ nv t' a <= nv t' b) /\ incr_chain t' (b :: l)).
+  split; [rewrite !H, !Hu; exact H1 | apply IH; exact H2].
 Qed.
 
 Lemma incr_chain_tail : forall t a l, incr_chain t (a :: l) -> incr_chain t l.
@@ -143,9 +179,11 @@ Proof. intros t a [|b l] H; [exact I|]. cbn [incr_chain] in H. tauto. Qed.
 
 (* encoder-side update of one node *)
 Definition enc_upd (t : ttree) (id : Z * Z) (low : Z) (k : bool) : ttree :=
-  tt_with t (tt_nodes t) (set2 (tt_low t) (fst id) (snd id) low) (set2 (tt_known t) (fst id) (snd id) k).
-Definition dec_upd (t : ttree) (id : Z * Z) (v low : Z) : ttree :=
-  tt_with t (set2 (tt_nodes t) (fst id) (snd id) v) (set2 (tt_low t) (fst id) (snd id) low) (tt_known t).
+  tt_with t (tt_nodes t) (set2 (tt_low t) (fst id) (snd id) low) (set2 (tt_known t) (fst id) (snd id) k)
+          (tt_unset t).
+Definition dec_upd (t : ttree) (id : Z * Z) (v low : Z) (u : bool) : ttree :=
+  tt_with t (set2 (tt_nodes t) (fst id) (snd id) v) (set2 (tt_low t) (fst id) (snd id) low) (tt_known t)
+          (set2 (tt_unset t) (fst id) (snd id) u).
 
 Lemma pair_neq : forall (a b : Z * Z), a <> b -> (fst a, snd a) <> (fst b, snd b).
 Proof. intros [a1 a2] [b1 b2] H. exact H. Qed.
@@ -153,37 +191,42 @@ Proof. intros [a1 a2] [b1 b2] H. exact H. Qed.
 Lemma same_shapes_vid_low : forall t id, same_shapes t -> vid t id -> valid2 (tt_low t) (fst id) (snd id) = true.
 Proof. intros t id [H _] Hv. rewrite (valid2_shape _ (tt_nodes t)) by exact H. exact Hv. Qed.
 Lemma same_shapes_vid_known : forall t id, same_shapes t -> vid t id -> valid2 (tt_known t) (fst id) (snd id) = true.
-Proof. intros t id [_ H] Hv. rewrite (valid2_shape _ (tt_nodes t)) by exact H. exact Hv. Qed.
+Proof. intros t id [_ [H _]] Hv. rewrite (valid2_shape _ (tt_nodes t)) by exact H. exact Hv. Qed.
+Lemma same_shapes_vid_unset : forall t id, same_shapes t -> vid t id -> valid2 (tt_unset t) (fst id) (snd id) = true.
+Proof. intros t id [_ [_ H]] Hv. rewrite (valid2_shape _ (tt_nodes t)) by exact H. exact Hv. Qed.
 
 Lemma enc_upd_facts : forall t id low k, same_shapes t -> vid t id ->
   let t' := enc_upd t id low k in
-  tt_nodes t' = tt_nodes t /\ same_shapes t' /\ tt_w t' = tt_w t /\ tt_h t' = tt_h t /\ tt_lw t' = tt_lw t /\
+  tt_nodes t' = tt_nodes t /\ tt_unset t' = tt_unset t /\ same_shapes t' /\
+  tt_w t' = tt_w t /\ tt_h t' = tt_h t /\ tt_lw t' = tt_lw t /\
   nl t' id = low /\ nk t' id = k /\
   (forall id', id' <> id -> nl t' id' = nl t id' /\ nk t' id' = nk t id').
 Proof.
   intros t id low k Hs Hv t'. subst t'. unfold enc_upd, tt_with, same_shapes, nl, nk.
-  cbn [tt_nodes tt_low tt_known tt_w tt_h tt_lw]. rewrite !set2_shape.
-  destruct Hs as [H1 H2].
+  cbn [tt_nodes tt_low tt_known tt_unset tt_w tt_h tt_lw]. rewrite !set2_shape.
+  pose proof Hs as [H1 [H2 H3]].
   repeat split; try assumption.
-  - apply get2_set2_same. apply same_shapes_vid_low; [split|]; assumption.
-  - apply get2_set2_same. apply same_shapes_vid_known; [split|]; assumption.
+  - apply get2_set2_same. apply same_shapes_vid_low; assumption.
+  - apply get2_set2_same. apply same_shapes_vid_known; assumption.
   - apply get2_set2_other. apply pair_neq. congruence.
   - apply get2_set2_other. apply pair_neq. congruence.
 Qed.
 
-Lemma dec_upd_facts : forall t id v low, same_shapes t -> vid t id ->
-  let t' := dec_upd t id v low in
+Lemma dec_upd_facts : forall t id v low u, same_shapes t -> vid t id ->
+  let t' := dec_upd t id v low u in
   shape (tt_nodes t') = shape (tt_nodes t) /\ same_shapes t' /\
   tt_w t' = tt_w t /\ tt_h t' = tt_h t /\ tt_lw t' = tt_lw t /\
-  nl t' id = low /\ nv t' id = v /\
-  (forall id', id' <> id -> nl t' id' = nl t id' /\ nv t' id' = nv t id').
+  nl t' id = low /\ nv t' id = v /\ nu t' id = u /\
+  (forall id', id' <> id -> nl t' id' = nl t id' /\ nv t' id' = nv t id' /\ nu t' id' = nu t id').
 Proof.
-  intros t id v low Hs Hv t'. subst t'. unfold dec_upd, tt_with, same_shapes, nl, nv.
-  cbn [tt_nodes tt_low tt_known tt_w tt_h tt_lw]. rewrite !set2_shape.
-  destruct Hs as [H1 H2].
+  intros t id v low u Hs Hv t'. subst t'. unfold dec_upd, tt_with, same_shapes, nl, nv, nu.
+  cbn [tt_nodes tt_low tt_known tt_unset tt_w tt_h tt_lw]. rewrite !set2_shape.
+  pose proof Hs as [H1 [H2 H3]].
   repeat split; try assumption.
-  - apply get2_set2_same. apply same_shapes_vid_low; [split|]; assumption.
+  - apply get2_set2_same. apply same_shapes_vid_low; assumption.
   - apply get2_set2_same. exact Hv.
+  - apply get2_set2_same. apply same_shapes_vid_unset; assumption.
+  - apply get2_set2_other. apply pair_neq. congruence.
   - apply get2_set2_other. apply pair_neq. congruence.
   - apply get2_set2_other. apply pair_neq. congruence.
 Qed.
@@ -195,14 +238,16 @@ Proof. intros t t' id H Hv. unfold vid in *. rewrite (valid2_shape _ (tt_nodes t
 
 Definition node_pre (te td : ttree) (the thd M : Z) (id : Z * Z) : Prop :=
   vid te id /\ NodeRel te td id /\ NodeInv te id /\
-  (the = thd \/ (nv te id < the /\ nv te id < thd)) /\ (nv te id < the -> nv te id < 999) /\ nl te id <= M.
+  (the = thd \/ (nu te id = false /\ nv te id < the /\ nv te id < thd)) /\ nl te id <= M.
 
 Definition node_post (te te' td' : ttree) (the M : Z) (id : Z * Z) : Prop :=
-  NodeRel te' td' id /\ NodeInv te' id /\ (nv te id < the -> nk te' id = true) /\ nl te' id <= Z.max M the.
+  NodeRel te' td' id /\ NodeInv te' id /\ (nu te id = false -> nv te id < the -> nk te' id = true) /\
+  nl te' id <= Z.max M the.
 
 Definition frame (te te' td td' : ttree) (ids : list (Z * Z)) : Prop :=
   forall id, ~ In id ids ->
-    nl te' id = nl te id /\ nk te' id = nk te id /\ nl td' id = nl td id /\ nv td' id = nv td id.
+    nl te' id = nl te id /\ nk te' id = nk te id /\ nl td' id = nl td id /\ nv td' id = nv td id /\
+    nu td' id = nu td id.
 
 Definition same_geom (t t' : ttree) : Prop :=
   tt_w t' = tt_w t /\ tt_h t' = tt_h t /\ tt_lw t' = tt_lw t /\ shape (tt_nodes t') = shape (tt_nodes t)
@@ -215,66 +260,78 @@ Proof.
 Qed.
 
 Lemma same_geom_refl : forall a, same_shapes a -> same_geom a a.
-Proof. intros a H. unfold same_geom. repeat split; try reflexivity; apply H. Qed.
+Proof. intros a H. unfold same_geom. split; [reflexivity|]. split; [reflexivity|]. split; [reflexivity|]. split; [reflexivity | exact H]. Qed.
 
 Lemma nodes_sync : forall ids te td Lin the thd M bs te' rest r more,
   NoDup ids -> same_shapes te -> same_shapes td -> shape (tt_nodes td) = shape (tt_nodes te) ->
   (forall id, In id ids -> node_pre te td the thd M id) ->
-  incr_chain te ids -> (forall a l, ids = a :: l -> Lin <= nv te a) -> Lin <= M ->
+  incr_chain te ids -> (forall a l, ids = a :: l -> nu te a = false -> Lin <= nv te a) -> Lin <= M ->
   tt_enc_nodes te ids Lin the = (bs, te') ->
   BitsAt rest r (bs ++ more) ->
   exists td' r', tt_dec_nodes td ids Lin thd r = Ok (td', r') /\ BitsAt rest r' more /\
-    tt_nodes te' = tt_nodes te /\ same_geom te te' /\ same_geom td td' /\
+    tt_nodes te' = tt_nodes te /\ tt_unset te' = tt_unset te /\ same_geom te te' /\ same_geom td td' /\
     frame te te' td td' ids /\
     (forall id, In id ids -> node_post te te' td' the M id).
 Proof.
   induction ids as [|[lv idx] ids IH];
     intros te td Lin the thd M bs te' rest r more Hnd Hse Hsd Hsh Hpre Hch Hin HM He HB.
-  - cbn [tt_enc_nodes] in He. pose proof (f_equal fst He) as Hbs; pose proof (f_equal snd He) as Hte; cbn [fst snd] in Hbs, Hte; subst bs te'; clear He. cbn [app] in HB.
+  - cbn [tt_enc_nodes] in He.
+    pose proof (f_equal fst He) as Hbs; pose proof (f_equal snd He) as Hte; cbn [fst snd] in Hbs, Hte; subst bs te'; clear He.
+    cbn [app] in HB.
     exists td, r. cbn [tt_dec_nodes]. split; [reflexivity|]. split; [exact HB|]. split; [reflexivity|].
+    split; [reflexivity|].
     split; [apply same_geom_refl; exact Hse|]. split; [apply same_geom_refl; exact Hsd|].
     split; [intros id _; repeat split; reflexivity | intros id []].
   - cbn [tt_enc_nodes] in He.
     set (id := (lv, idx)) in *.
-    destruct (Hpre id ltac:(left; reflexivity)) as [Hvid [[Hrl Hrv] [[Hinv Hknown] [Hcond [Hq HlM]]]]].
+    destruct (Hpre id ltac:(left; reflexivity)) as [Hvid [[Hrl [Hru Hrv]] [[Hinv Hknown] [Hcond HlM]]]].
     change (get2 (tt_low te) lv idx 0) with (nl te id) in He.
     change (get2 (tt_nodes te) lv idx 0) with (nv te id) in He.
     change (get2 (tt_known te) lv idx false) with (nk te id) in He.
+    change (get2 (tt_unset te) lv idx false) with (nu te id) in He.
     set (L1 := if Lin >? nl te id then Lin else nl te id) in *.
-    assert (HL1 : L1 <= nv te id /\ (nk te id = true -> L1 = nv te id) /\ L1 <= M /\ nl te id <= L1).
+    assert (HL1 : (nu te id = false -> L1 <= nv te id) /\ (nk te id = true -> nu te id = false /\ L1 = nv te id)
+                  /\ L1 <= M /\ nl te id <= L1).
     { specialize (Hin id ids eq_refl). unfold L1. destruct (Z.gtb_spec Lin (nl te id)).
-      - repeat split; try lia. intros Hk. specialize (Hknown Hk). lia.
-      - repeat split; try lia. exact Hknown. }
+      - split; [intros Hu; specialize (Hin Hu); lia|].
+        split; [intros Hk; destruct (Hknown Hk) as [Hu Hl]; split; [exact Hu | specialize (Hin Hu); lia]|].
+        split; lia.
+      - split; [exact Hinv|]. split; [exact Hknown|]. split; lia. }
     destruct HL1 as [HL1v [HL1k [HL1M HL1l]]].
-    destruct (tt_enc_loop (loop_fuel L1 the) L1 the (nv te id) (nk te id)) as [[bs1 L2] k2] eqn:Eloop.
-    change (tt_with te (tt_nodes te) (set2 (tt_low te) lv idx L2) (set2 (tt_known te) lv idx k2))
+    destruct (tt_enc_loop (loop_fuel L1 the) L1 the (nv te id) (nu te id) (nk te id)) as [[bs1 L2] k2] eqn:Eloop.
+    change (tt_with te (tt_nodes te) (set2 (tt_low te) lv idx L2) (set2 (tt_known te) lv idx k2) (tt_unset te))
       with (enc_upd te id L2 k2) in He.
     destruct (tt_enc_nodes (enc_upd te id L2 k2) ids L2 the) as [bs2 te2] eqn:Erest.
     cbv beta iota zeta in He.
     pose proof (f_equal fst He) as Hbs; pose proof (f_equal snd He) as Hte; cbn [fst snd] in Hbs, Hte; subst bs te'; clear He.
     rewrite <- app_assoc in HB.
-    destruct (node_sync L1 the thd (nv te id) (nk te id) bs1 L2 k2 rest r (bs2 ++ more)
-                ltac:(lia) HL1k Hcond Hq Eloop HB) as [r1 [Edec [HB1 [HL2 [Hk2 [Hk2t HL2m]]]]]].
+    destruct (node_sync L1 the thd (nv te id) (nu te id) (nk te id) (nv td id) bs1 L2 k2 rest r (bs2 ++ more)
+                HL1v HL1k Hcond Hrv Eloop HB)
+      as [r1 [vd' [Edec [HB1 [Hvd' [HL2 [HL2v [Hk2 [Hk2t HL2m]]]]]]]]].
     (* the two updated trees *)
-    destruct (enc_upd_facts te id L2 k2 Hse Hvid) as [Fn [Fs [Fw [Fh [Flw [Fl [Fk Fo]]]]]]].
+    destruct (enc_upd_facts te id L2 k2 Hse Hvid) as [Fn [Fu [Fs [Fw [Fh [Flw [Fl [Fk Fo]]]]]]]].
     assert (Hvid_d : vid td id) by (apply (vid_shape te td); [exact Hsh | exact Hvid]).
-    destruct (dec_upd_facts td id (if k2 then nv te id else 999) L2 Hsd Hvid_d)
-      as [Gn [Gs [Gw [Gh [Glw [Gl [Gv Go]]]]]]].
-    set (te1 := enc_upd te id L2 k2) in *. set (td1 := dec_upd td id (if k2 then nv te id else 999) L2) in *.
+    destruct (dec_upd_facts td id vd' L2 (negb k2) Hsd Hvid_d)
+      as [Gn [Gs [Gw [Gh [Glw [Gl [Gv [Gu Go]]]]]]]].
+    set (te1 := enc_upd te id L2 k2) in *. set (td1 := dec_upd td id vd' L2 (negb k2)) in *.
     assert (Hnv1 : forall i, nv te1 i = nv te i) by (intros i; unfold nv; rewrite Fn; reflexivity).
+    assert (Hnu1 : forall i, nu te1 i = nu te i) by (intros i; unfold nu; rewrite Fu; reflexivity).
     apply NoDup_cons_iff in Hnd as [Hnotin Hnd'].
     assert (Hne : forall i, In i ids -> i <> id) by (intros i Hi E; subst i; contradiction).
     (* induction hypothesis on the rest of the walk *)
     destruct (IH te1 td1 L2 the thd (Z.max M the) bs2 te2 rest r1 more Hnd' Fs Gs) as
-      [td' [r' [Edec' [HB' [Hn' [Hg_e [Hg_d [Hfr Hpost]]]]]]]].
+      [td' [r' [Edec' [HB' [Hn' [Hu' [Hg_e [Hg_d [Hfr Hpost]]]]]]]]].
     + rewrite Gn, Fn. exact Hsh.
-    + intros i Hi. destruct (Hpre i ltac:(right; exact Hi)) as [Pv [[Prl Prv] [[Pinv Pk] [Pc [Pq PM]]]]].
-      destruct (Fo i (Hne i Hi)) as [Fl' Fk']. destruct (Go i (Hne i Hi)) as [Gl' Gv'].
-      unfold node_pre, NodeRel, NodeInv. rewrite !Hnv1, Fl', Fk', Gl', Gv'.
+    + intros i Hi. destruct (Hpre i ltac:(right; exact Hi)) as [Pv [[Prl [Pru Prv]] [[Pinv Pk] [Pc PM]]]].
+      destruct (Fo i (Hne i Hi)) as [Fl' Fk']. destruct (Go i (Hne i Hi)) as [Gl' [Gv' Gu']].
+      unfold node_pre, NodeRel, NodeInv. rewrite !Hnv1, !Hnu1, Fl', Fk', Gl', Gv', Gu'.
       split; [apply (vid_shape te te1); [rewrite Fn; reflexivity | exact Pv]|].
-      repeat split; try assumption; try lia.
-    + apply (incr_chain_ext te te1); [exact Hnv1|]. apply (incr_chain_tail te id). exact Hch.
-    + intros a l E. subst ids. rewrite Hnv1. cbn [incr_chain] in Hch. destruct Hch as [Hab _]. lia.
+      split; [split; [exact Prl | split; [exact Pru | exact Prv]]|].
+      split; [split; [exact Pinv | exact Pk]|]. split; [exact Pc | lia].
+    + apply (incr_chain_ext te te1); [exact Hnv1 | exact Hnu1|]. apply (incr_chain_tail te id). exact Hch.
+    + intros a l E Hua. subst ids. rewrite Hnv1. rewrite Hnu1 in Hua.
+      cbn [incr_chain] in Hch. destruct Hch as [Hab _]. destruct (Hab Hua) as [Huid Hle].
+      specialize (HL2v Huid). lia.
     + lia.
     + exact Erest.
     + exact HB1.
@@ -283,11 +340,12 @@ Proof.
       { change (id :: ids) with ((lv, idx) :: ids). cbn [tt_dec_nodes].
         change (get2 (tt_low td) lv idx 0) with (nl td id).
         change (get2 (tt_nodes td) lv idx 0) with (nv td id).
-        rewrite <- Hrl, Hrv. fold L1. rewrite Edec. cbn [obind].
-        change (tt_with td (set2 (tt_nodes td) lv idx (if k2 then nv te id else 999))
-                  (set2 (tt_low td) lv idx L2) (tt_known td)) with td1.
+        change (get2 (tt_unset td) lv idx false) with (nu td id).
+        rewrite <- Hrl, Hru. fold L1. rewrite Edec. cbn [obind].
+        change (tt_with td (set2 (tt_nodes td) lv idx vd') (set2 (tt_low td) lv idx L2) (tt_known td)
+                        (set2 (tt_unset td) lv idx (negb k2))) with td1.
         exact Edec'. }
-      split; [exact HB'|]. split; [rewrite Hn'; exact Fn|].
+      split; [exact HB'|]. split; [rewrite Hn'; exact Fn|]. split; [rewrite Hu'; exact Fu|].
       split.
       { apply (same_geom_trans te te1 te2); [|exact Hg_e]. unfold same_geom.
         split; [exact Fw|]. split; [exact Fh|]. split; [exact Flw|]. split; [rewrite Fn; reflexivity | exact Fs]. }
@@ -297,16 +355,19 @@ Proof.
       split.
       { intros i Hi. assert (Hi1 : i <> id) by (intros E; apply Hi; left; symmetry; exact E).
         assert (Hi2 : ~ In i ids) by (intros E; apply Hi; right; exact E).
-        destruct (Hfr i Hi2) as [A1 [A2 [A3 A4]]]. destruct (Fo i Hi1) as [B1 B2]. destruct (Go i Hi1) as [C1 C2].
+        destruct (Hfr i Hi2) as [A1 [A2 [A3 [A4 A5]]]]. destruct (Fo i Hi1) as [B1 B2].
+        destruct (Go i Hi1) as [C1 [C2 C3]].
         repeat split; congruence. }
       intros i [<-|Hi].
       * (* the node just processed is not touched by the rest of the walk *)
-        destruct (Hfr id Hnotin) as [A1 [A2 [A3 A4]]].
+        destruct (Hfr id Hnotin) as [A1 [A2 [A3 [A4 A5]]]].
         unfold node_post, NodeRel, NodeInv.
         assert (Hnv2 : nv te2 id = nv te id) by (unfold nv; rewrite Hn', Fn; reflexivity).
-        rewrite Hnv2, A1, A2, A3, A4, Fl, Fk, Gl, Gv.
-        repeat split; try lia; try assumption.
+        assert (Hnu2 : nu te2 id = nu te id) by (unfold nu; rewrite Hu', Fu; reflexivity).
+        rewrite Hnv2, Hnu2, A1, A2, A3, A4, A5, Fl, Fk, Gl, Gv, Gu.
+        split; [split; [reflexivity | split; [reflexivity | exact Hvd']]|].
+        split; [split; [exact HL2v | exact Hk2]|]. split; [exact Hk2t | lia].
       * destruct (Hpost i Hi) as [P1 [P2 [P3 P4]]]. unfold node_post.
-        split; [exact P1|]. split; [exact P2|]. split; [rewrite <- Hnv1; exact P3|].
+        split; [exact P1|]. split; [exact P2|]. split; [rewrite <- Hnv1, <- Hnu1; exact P3|].
         lia.
 Qed.
